@@ -680,6 +680,8 @@ def run(tier, seed):
         u = quota.stage(r, seed, tier)
         cov['extra_obligations'] = cov.get('extra_obligations', 0) + u.pop('quota_obligations')
         cov.update(u)
+        from . import c20stats     # the stats the quota check reads are refreshed by every new leader
+        cov.update(c20stats.stage(r, seed, 60 if tier == 'quick' else 1500))
         return cov
     core.standard_run(PID, tier, seed, {
         'model_vos': ['Mon/AppMon', 'Gen/Tables'], 'table_sections': ['c20', 'source_shape'] + list(quota.SECTIONS),
@@ -700,6 +702,9 @@ def run(tier, seed):
 
 
 def replay_case(case):
+    if isinstance(case, dict) and case.get('engine') == 'E-master-c20stats':
+        from . import c20stats
+        return c20stats.replay_case(case)
     if isinstance(case, dict) and case.get('engine') == 'E-quota':
         from . import quota
         return quota.replay_case(case)
